@@ -140,7 +140,7 @@ fn main() {
         parts: vec![
             PropPart::new("seq", 100_000, 2_000_000, seq::seq_strategy, seq::seq_check).boxed(),
             Box::new(sleep_part()),
-            PropPart::new("sched", 20_000, 400_000, sched::sched_strategy, sched::sched_check).shrink_iters(1200).boxed(),
+            PropPart::new("sched", 6_000, 120_000, sched::sched_strategy, sched::sched_check).shrink_iters(1200).boxed(),
             Box::new(sched::stress_part()),
         ],
         children: vec![],
